@@ -914,7 +914,15 @@ def mentioned_names():
             src = open(f).read()
             for lit in _re.findall(r"'((?:[^'\\\n]|\\.)*)'|\"((?:[^\"\\\n]|\\.)*)\"", src):
                 for part in lit:
-                    names.update(_re.findall(r'[A-Za-z_][A-Za-z0-9_]*', part))
+                    if not part:
+                        continue
+                    if not _re.search(r'\s', part):
+                        # a literal without blanks is a name, a path or a pattern: every identifier in it counts
+                        names.update(_re.findall(r'[A-Za-z_][A-Za-z0-9_]*', part))
+                    else:
+                        # prose (a message): only identifiers written as code - followed by `(` or preceded by `::` / `.`
+                        names.update(_re.findall(r'([A-Za-z_][A-Za-z0-9_]*)\\?\(', part))
+                        names.update(_re.findall(r'(?:::|\.)([A-Za-z_][A-Za-z0-9_]*)', part))
         _MENTIONED = names
     return _MENTIONED
 
